@@ -384,8 +384,22 @@ func sortMapKeys(keys []reflect.Value) {
 				return ka.Float() < kb.Float()
 			}
 		}
-		return fmt.Sprint(ka.Interface()) < fmt.Sprint(kb.Interface())
+		sa, sb := fmt.Sprint(ka.Interface()), fmt.Sprint(kb.Interface())
+		if sa != sb {
+			return sa < sb
+		}
+		// Keys of different types can print alike (1 and "1" in a map[any]any): the type
+		// breaks the tie, so that the order never falls back to Go's random map order.
+		return keyTypeName(ka) < keyTypeName(kb)
 	})
+}
+
+// keyTypeName names the dynamic type of a map key.
+func keyTypeName(k reflect.Value) string {
+	if k.Kind() == reflect.Interface && !k.IsNil() {
+		k = k.Elem()
+	}
+	return k.Type().String()
 }
 
 // Helpers
